@@ -2,6 +2,7 @@ package vsched
 
 import (
 	"reflect"
+	"runtime"
 	"sort"
 	"strconv"
 )
@@ -25,6 +26,12 @@ func (s *Sched) markClosed(p uintptr) {
 		s.chClosed = append(s.chClosed, p)
 	}
 }
+
+// keepAlive pins a closed channel for the rest of the execution, so that its address cannot be
+// reused by another channel (which would then look closed to the registry).
+//
+//go:norace
+func (s *Sched) keepAlive(v reflect.Value) { s.pinned = append(s.pinned, v) }
 
 // chanEn is the enabledness of a channel operation.
 type chanEn struct {
@@ -86,6 +93,7 @@ func (s *Sched) recvReady(v reflect.Value) bool {
 	x, ok := v.TryRecv()
 	if x.IsValid() && !ok {
 		s.markClosed(chanPtr(v))
+		s.keepAlive(v)
 		return true
 	}
 	if x.IsValid() && ok {
@@ -158,6 +166,7 @@ func Close(ch any, do func()) {
 		v := reflect.ValueOf(ch)
 		s.point(&op{kind: KClose, label: "close", obj: chanPtr(v)})
 		s.markClosed(chanPtr(v))
+		s.keepAlive(v)
 	} else if Mode() == 2 {
 		return
 	}
@@ -266,6 +275,18 @@ func Select(hasDefault bool, cases ...Case) *Sel {
 	}
 	v, ok := c.ch.Recv()
 	return &Sel{Idx: i, val: v, ok: ok}
+}
+
+// SelectPanic is the argument of the panic in the default clause that the instrumenter adds to
+// a rewritten select without default (never reached while an execution is live; during
+// teardown the goroutine simply leaves).
+//
+//go:norace
+func SelectPanic(s *Sel) string {
+	if Mode() == 2 || s.Idx == -2 {
+		runtime.Goexit()
+	}
+	return "vsched: select returned no arm"
 }
 
 // Got returns the value received by the chosen arm, typed by the arm's channel.
